@@ -29,7 +29,9 @@ EXTRA = [C.E('qty:nan kg', N.num(_NAN, 'kg'), rep=True), C.E('qty:nan m', N.num(
          # large values that differ materially in absolute terms and by less than 1e-6 in relative terms (the tolerance is absolute)
          C.E('num:1500000000', N.num(1500000000.0), rep=True), C.E('num:1500000001', N.num(1500000001.0), rep=True),
          C.E('qty:123456.0kWh', N.num(123456.0, 'kWh'), rep=True), C.E('qty:123456.1kWh', N.num(123456.1, 'kWh'), rep=True),
-         C.E('num:40000000.5', N.num(40000000.5)), C.E('num:40000000', N.num(40000000.0))]
+         C.E('num:40000000.5', N.num(40000000.5)), C.E('num:40000000', N.num(40000000.0)),
+         # the same bytes under the other binary encoding: equal by the class's documented rule (payload only), so their hashes - if any - agree
+         C.E('xstr:b64(deadbeef)', ('xstr', 'b64', bytes.fromhex('deadbeef')), minver='3.0', rep=True), C.E('xstr:hex(000102)', ('xstr', 'hex', b'\x00\x01\x02'), minver='3.0')]
 
 
 def entries(soft=False):
@@ -454,9 +456,137 @@ def history_independence(st):
                         {'kind': 'history', 'first': n1, 'second': n2}, {'as_first_comparison': repr(fresh[n2]), 'after_' + n1: repr(got)})
 
 
+class _FoldAwareLondon(__import__('datetime').tzinfo):
+    """A minimal PEP 495 zone of the harness's own: +01:00 until the clocks go back at 02:00 local on 2021-10-31, +00:00 afterwards.
+    Instances compare by identity (as zoneinfo.ZoneInfo objects from different caches do)."""
+    def utcoffset(self, dt):
+        return self.dst(dt)
+
+    def dst(self, dt):
+        import datetime
+        wall = dt.replace(tzinfo=None)
+        back = datetime.datetime(2021, 10, 31, 1, 0)
+        if wall < back:
+            return datetime.timedelta(hours=1)
+        if wall < back + datetime.timedelta(hours=1):
+            return datetime.timedelta(0) if dt.fold else datetime.timedelta(hours=1)
+        return datetime.timedelta(0)
+
+    def tzname(self, dt):
+        return 'BST' if self.dst(dt) else 'GMT'
+
+    def __deepcopy__(self, memo):
+        return _FoldAwareLondon()
+
+
+FOREIGN_WALLS = [((2021, 10, 31, 0, 30, 15), 0), ((2021, 10, 31, 1, 30, 15), 0), ((2021, 10, 31, 1, 30, 15), 1), ((2021, 10, 31, 2, 30, 15), 0),
+                 ((2021, 10, 31, 1, 0, 0), 0), ((2021, 10, 31, 1, 0, 0), 1), ((2021, 7, 1, 12, 0, 0), 0)]
+FOREIGN_PROVIDERS = ['zoneinfo', 'zoneinfo-uncached', 'fold-aware class', 'fixed offset', 'pytz']
+
+
+def _foreign_value(provider, wall, fold):
+    """-> (aware datetime, utc instant as naive datetime, offset) for the wall clock reading `wall` (fold) in London, carried by `provider`."""
+    import datetime
+    ref = datetime.datetime(*wall, fold=fold, tzinfo=_FoldAwareLondon())
+    off = ref.utcoffset()
+    instant = ref.replace(tzinfo=None) - off
+    if provider == 'fold-aware class':
+        v = ref
+    elif provider in ('zoneinfo', 'zoneinfo-uncached'):
+        import zoneinfo
+        z = zoneinfo.ZoneInfo('Europe/London') if provider == 'zoneinfo' else zoneinfo.ZoneInfo.no_cache('Europe/London')
+        v = datetime.datetime(*wall, fold=fold, tzinfo=z)
+    elif provider == 'fixed offset':
+        v = datetime.datetime(*wall, tzinfo=datetime.timezone(off))
+    else:
+        import pytz
+        v = pytz.utc.localize(instant).astimezone(pytz.timezone('Europe/London'))
+    if v.utcoffset() != off or v.replace(tzinfo=None) != ref.replace(tzinfo=None):
+        raise HarnessError('tz provider %s disagrees with the harness about London on %r' % (provider, wall))
+    return v, instant, off
+
+
+def foreign_tz(st, only=None):
+    """Date-time cells carried by tzinfo classes other than the library's own (zoneinfo, a PEP 495 class, fixed offsets) next to pytz:
+    two grids are equal when their cells are the same reading at the same offset (whatever object carries the zone), and unequal
+    when the cells denote instants a second or more apart - in particular the two passes through the repeated hour at the end of DST,
+    which share tzinfo, date and time and differ in `fold` only.  A grid equals its deepcopy and its faithful round trips."""
+    import hszinc as hs
+    import datetime
+    try:
+        import zoneinfo
+        zoneinfo.ZoneInfo('Europe/London')
+        providers = FOREIGN_PROVIDERS
+    except Exception:  # noqa
+        providers = [p for p in FOREIGN_PROVIDERS if not p.startswith('zoneinfo')]
+
+    def G(v, where):
+        g = hs.Grid(version='3.0', columns=[('ts', []), ('v', [])])
+        if where == 'cell':
+            g.append({'ts': v, 'v': 1.0})
+        elif where == 'list':
+            g.append({'ts': [v, 1.0], 'v': 1.0})
+        elif where == 'dict':
+            g.append({'ts': {'k': v}, 'v': 1.0})
+        else:
+            g.metadata['stamp'] = v
+            g.append({'ts': None, 'v': 1.0})
+        return g
+    for pa in providers:
+        for wa, fa in FOREIGN_WALLS:
+            va, ia, oa = _foreign_value(pa, wa, fa)
+            for where in ('cell', 'list', 'dict', 'meta'):
+                case0 = {'kind': 'foreign-tz', 'a': [pa, list(wa), fa], 'where': where}
+                if only is not None and (only.get('a') != case0['a'] or only.get('where') != where):
+                    continue
+                g1 = G(va, where)
+                sig0 = {'kinds': 'dt (foreign tzinfo)', 'provider': pa, 'where': where, 'fold': fa}
+                for what, other in (('deepcopy', lambda: copy.deepcopy(g1)), ('rebuilt', lambda: G(_foreign_value(pa, wa, fa)[0], where))):
+                    st.count('executions')
+                    r = ev(lambda: (g1 == other(), g1 != other()))
+                    st.case(('foreign-tz', pa, wa, fa, where, what), outcome=r)
+                    if r != ('ok', (True, False)):
+                        st.fail('grid-not-equal-to-faithful-copy', dict(sig0, what=what, observed=str(r[1])), dict(case0, b=what), {'observed': repr(r)})
+                for mode, name in ((hs.MODE_ZINC, 'zinc'), (hs.MODE_JSON, 'json')):
+                    st.count('executions')
+                    try:
+                        back = hs.parse(hs.dump(g1, mode=mode), mode=mode)
+                        faithful = N.same(O.observe_grid(g1, hs), O.observe_grid(back, hs), name) is None
+                    except Exception:  # noqa
+                        st.skip('round trip fails (C01/C02/C17 subject)')
+                        continue
+                    if not faithful:
+                        st.skip('round trip not faithful per observe (C17 subject: zone renamed)')
+                        continue
+                    r = ev(lambda: (g1 == back, back == g1, g1 != back))
+                    if r != ('ok', (True, True, False)):
+                        st.fail('grid-not-equal-to-own-roundtrip', dict(sig0, fmt=name, observed=str(r[1])), dict(case0, b='roundtrip-' + name), {'observed': repr(r)})
+                for pb in providers:
+                    for wb, fb in FOREIGN_WALLS:
+                        if only is not None and only.get('b') != [pb, list(wb), fb]:
+                            continue
+                        vb, ib, ob = _foreign_value(pb, wb, fb)
+                        g2 = G(vb, where)
+                        st.count('executions')
+                        r = ev(lambda: (g1 == g2, g1 != g2))
+                        same_reading = (ia == ib and oa == ob)
+                        apart = abs((ia - ib).total_seconds()) >= 1.0
+                        st.case(('foreign-tz', pa, wa, fa, pb, wb, fb, where), nontrivial=(pa, wa, fa) != (pb, wb, fb), outcome=(r, same_reading, apart))
+                        case = dict(case0, b=[pb, list(wb), fb])
+                        sig = dict(sig0, other=pb, same_wall_clock=(wa == wb))
+                        if r[0] == 'raise':
+                            st.fail('grid-equality-raised', dict(sig, exc=r[1]), case, {})
+                        elif same_reading and r[1] != (True, False):
+                            st.fail('grid-not-equal-to-faithful-copy', dict(sig, what='same reading and offset under another tzinfo object', observed=str(r[1])), case,
+                                    {'a': repr(va), 'b': repr(vb)})
+                        elif apart and r[1] != (False, True):
+                            st.fail('materially-different-grids-compare-equal', sig, case, {'a': repr(va), 'b': repr(vb), 'instants_apart_s': (ia - ib).total_seconds()})
+
+
 def run(ctx):
     st = Stats()
     history_independence(st)
+    foreign_tz(st)
     names = [e.name for e in entries()]
     rng = seeded_rng(ctx.seed, 'c19')
     rows = list(names)
@@ -489,9 +619,10 @@ def run(ctx):
         'stats': st, 'exhaustive': True,
         'rule': 'complete enumeration: all ordered pairs over %d catalogue values (==, !=, reflected ==, hash, copy/deepcopy/rebuilt), all triples over '
                 '%d kind representatives, every (version, slot, v) grid against its copy, its ZINC and JSON round trips and g(w) for every w of '
-                '%d values, single structural differences in both orders, grids against non-grids, every ordered pair of 21 probe comparisons (date-times with one wall clock in two zones, winter and summer) from the import-time module state; distinct = distinct tuple; non-trivial = the '
-                'two operands are different catalogue entries' % (len(names), len(reps), len(others)),
-        'coverage': {'bounds': {'values': len(names), 'pairs': len(names) ** 2, 'triples': len(reps) ** 3, 'grid_cases': len(items), 'grid_partners': len(others)}},
+                '%d values, single structural differences in both orders, grids against non-grids, every ordered pair of 21 probe comparisons (date-times with one wall clock in two zones, winter and summer) from the import-time module state; every ordered pair of %d tzinfo providers x %d London wall-clock readings (both passes through the repeated hour) in 4 positions of a grid, with deepcopy / rebuilt / round trips; distinct = distinct tuple; non-trivial = the '
+                'two operands are different catalogue entries' % (len(names), len(reps), len(others), len(FOREIGN_PROVIDERS), len(FOREIGN_WALLS)),
+        'coverage': {'bounds': {'values': len(names), 'pairs': len(names) ** 2, 'triples': len(reps) ** 3, 'grid_cases': len(items), 'grid_partners': len(others),
+                                'foreign_tzinfo_providers': FOREIGN_PROVIDERS, 'foreign_wall_clock_readings': len(FOREIGN_WALLS)}},
         'assumptions': ['not pinned (tolerated either way): bool vs number (Python numeric tower), NaN payloads, date-times denoting one instant in '
                         'different zones, XStr differing only in type name, differences inside the documented tolerance of Grid == (sub-second '
                         'times, 1e-6 on numbers/coordinates)',
@@ -510,6 +641,8 @@ def replay(case, st):
     elif k == 'grid':
         w = case['w']
         st.merge(grid_task([(case['ver'], case['slot'], case['v'])], [] if w.startswith(('copy', 'roundtrip')) else [w]))
+    elif k == 'foreign-tz':
+        foreign_tz(st, only=case)
     elif k == 'history':
         sub = Stats()
         history_independence(sub)
